@@ -99,3 +99,13 @@ package lfshttp
 //@   assumed
 //@   props C18
 //@   pure
+
+// C10: which http.<url>.extraHeader entries - they may carry an Authorization
+// header - apply to a request is decided on the request's whole URL, host *and
+// port* included, exactly as written (URL.String()); nothing of it is dropped
+// before Git's URL matching rules are applied.
+//@ func (*Client).extraHeaders
+//@   props C10
+//@   requires @inv c != nil && u != nil
+//@   at call (*url.URL).String:1 assert arg0__ == u
+//@   at call (*config.URLConfig).GetAll:1 assert arg1__ == "http" && arg3__ == "extraHeader"
